@@ -374,6 +374,27 @@ func (x *Exec) binary(e *ast.BinaryExpr, st *State) Value {
 			return Sc{eq}
 		}
 		if isStringType(ct) {
+			// byte-wise ordering as an uninterpreted relation over string ids:
+			// the same two strings always compare the same way (nothing else
+			// about the order is known); contracts name it strgt(idA, idB)
+			as, ok1 := a.(Sl)
+			bs, ok2 := b.(Sl)
+			if ok1 && ok2 {
+				ka, oka := x.keyID(st, ct, as)
+				kb, okb := x.keyID(st, ct, bs)
+				if oka && okb {
+					switch e.Op {
+					case token.GTR:
+						return Sc{App(x.strGtFn(), ka, kb)}
+					case token.LSS:
+						return Sc{App(x.strGtFn(), kb, ka)}
+					case token.LEQ:
+						return Sc{Not(App(x.strGtFn(), ka, kb))}
+					case token.GEQ:
+						return Sc{Not(App(x.strGtFn(), kb, ka))}
+					}
+				}
+			}
 			return x.opaque(st, e, "string ordering")
 		}
 		return x.opaque(st, e, "comparison of "+ct.String())
